@@ -218,7 +218,8 @@ def mutant_refuted(ctx, module, cfg_text_path, label):
 
 def generate(ctx, module, constants, out_name, env=None, heap="4g", timeout=1800):
     """Run a Gen_* module (ASSUME-only, writes ndjson requests to IOEnv.OUT)."""
-    cfg = write_cfg(ctx.path(module + "_" + out_name + ".cfg"), constants=constants)
+    cfg = (write_cfg(ctx.path(module + "_" + out_name + ".cfg"), constants=constants) if constants
+           else os.path.join(SPEC, "Val.cfg"))
     out = ctx.path(out_name)
     e = {"OUT": out}
     if env:
